@@ -1,7 +1,13 @@
 import L21.Props.C01
+import L21.Props.C02
 import L21.Props.C03
+import L21.Props.C10
 #print axioms L21.Gds.c03_trailing
 #print axioms L21.Gds.c03_unsupported
 #print axioms L21.Gds.readRecord_append
 #print axioms L21.Gds.c01_reader_accepts_writer_rows
 #print axioms L21.Gds.c01_string_roundtrip
+#print axioms L21.Gds.c01_tree_roundtrip
+#print axioms L21.Gds.c01_roundtrip
+#print axioms L21.Gds.c02_grammar
+#print axioms L21.Gds.c10_parser_fuel
